@@ -397,8 +397,22 @@ def run(R):
             if path[-1] != bbn and path[-1] not in none_blocks:
                 continue
             d = cons_dict(cons)
-            eqs = [v for k, v in d.items() if v[0] == '==']
-            ins = [v for k, v in d.items() if v[0] == 'in']
+            # the status is pinned by a test on its integer value, or by `status == StatusCode::X` (a call, true on this path)
+            eqs = [v for k, v in d.items() if v[0] == '==' and '(' not in k]
+            ins = [v for k, v in d.items() if v[0] == 'in' and '(' not in k]
+            if not eqs and not ins:
+                for sub_, op_, v_ in cons:
+                    tm_ = meta.get('__terms__', {}).get(sub_)
+                    if tm_ is not None and is_call(strip_refs(tm_), name='eq') and ((op_ == 'notin' and 0 in v_) or (op_ == '!=' and v_ == 0) or (op_ == '==' and v_ not in (0, False))):
+                        ints_ = [const_val(x_) for x_ in find_terms(tm_, lambda y: isinstance(y, tuple) and y and y[0] == 'const' and isinstance(y[1], int) and not isinstance(y[1], bool))]
+                        # the http crate's associated constants carry the IANA names (StatusCode::OK = 200, ..)
+                        import http as _http
+                        for x_ in find_terms(tm_, lambda y: isinstance(y, tuple) and y and y[0] == 'constdef' and str(y[1]).startswith('http::StatusCode::')):
+                            nm_ = str(x_[1]).rsplit('::', 1)[-1]
+                            if nm_ in _http.HTTPStatus.__members__:
+                                ints_.append(_http.HTTPStatus[nm_].value)
+                        if len(set(ints_)) == 1:
+                            eqs = [('==', ints_[0])]
             if path[-1] in none_blocks:
                 val = 'Err(None)'
             else:
